@@ -184,7 +184,11 @@ LiveEnd ==
                         /\ q[x][2] <= max[m] - load[m]
                         /\ \A y \in DOMAIN q : ~ReqBefore([z \in DOMAIN q |-> q[z]], y, x)   \* x is (one of) the first in priority order
                         /\ \A m2 \in okm : max[m2] - load[m2] <= max[m] - load[m]               \* m is the least loaded
-     IN bad' = IF starving /\ ~r.stalled THEN Append(bad, [id |-> r.id, mode |-> "live", what |-> "FittingRequestGrantedEventually", seq |-> 0]) ELSE bad
+         \* the run of a real session has returned (r.ended): each of its tasks has ended -- succeeded, failed or
+         \* lost -- so every proc that was handed out must have been returned
+         leaked == r.ended /\ DOMAIN out # {}
+     IN bad' = (IF starving /\ ~r.stalled THEN Append(bad, [id |-> r.id, mode |-> "live", what |-> "FittingRequestGrantedEventually", seq |-> 0]) ELSE bad)
+                \o (IF leaked THEN <<[id |-> r.id, mode |-> "live", what |-> "ProcsReturnedWhenTaskEnds", seq |-> 0]>> ELSE <<>>)
   /\ s' = s + 1 /\ i' = 0 /\ UNCHANGED <<ph, load, max, hl, q, out, started, pend, peak>>
 
 LiveDone == /\ ph = "live" /\ s > Len(Live) /\ ph' = "done" /\ UNCHANGED <<s, i, load, max, hl, q, out, started, pend, peak, bad>>
